@@ -30,6 +30,9 @@ func fnIs(f *types.Func, pkg, recv, name string) bool {
 	if pp != pkg && pp != modPath+"/"+pkg && !(pkg == "main" && pp == modPath) {
 		return false
 	}
+	if a := funcAliases[shortPkg(pp)+"|"+recv+"|"+name]; a != nil && a == f.Origin() {
+		return true // the same function under another receiver (load.go: funcAliases)
+	}
 	sig := f.Type().(*types.Signature)
 	if recv == "" {
 		return sig.Recv() == nil
